@@ -283,6 +283,11 @@ def c01(tier):
     for ln in comment_lengths(dense_to=600, dense_step=(1 if tier == "thorough" else 7)):
         scs.append({"sc": "cl-%d" % ln, "ops": [{"op": "New"}, {"op": "StartFile", "name": "c", "method": 0}, {"op": "Write", "data": "x"},
                                                 {"op": "SetComment", "c": {"rep": "k", "n": ln}}, {"op": "Finish"}]})
+    # rarely combined features meet systematically: a pairwise covering array over entry kind x method x level x large x encryption x
+    # name class x payload class x permissions x time words x position x comment x life cycle (fresh / append rounds) x completion x sink
+    ix = gen_writer.interaction_programs(sd * 7919 + 1, "ix")
+    rep.notes["interaction_rows"] = len(ix)
+    scs += ix
     run_writer_programs(rep, wd, scs, "roundtrip")
     cmp_events = [e for e in vlib.read_ndjson(os.path.join(wd, "roundtrip-trace.ndjson")) if e.get("ev") == "Compare"]
     rep.notes["finish_vs_drop_comparisons"] = {"made": len(cmp_events), "both_completed": sum(1 for e in cmp_events if e.get("both"))}
@@ -354,7 +359,9 @@ def c02(tier):
     bs = boundary_scenarios()
     if tier == "quick":      # everything at 65535 / 65536; a third of the rest
         bs = [s for i, s in enumerate(bs) if i % 3 == sd % 3 or "-65535-" in s["sc"] or "-65536-" in s["sc"]]
-    run_writer_programs(rep, wd, scs + bs, "valid", referees=True)
+    ix = gen_writer.interaction_programs(sd * 7919 + 2, "ix")       # pairwise feature interactions (see gen_writer.IDIMS)
+    rep.notes["interaction_rows"] = len(ix)
+    run_writer_programs(rep, wd, scs + bs + ix, "valid", referees=True)
     # the archive-level ZIP64 records (end record, locator) only exist beyond 65 535 entries / 4 GiB: their structure is judged here too
     run_zip64_subset(rep, wd, tier, ("count-65536",) if tier == "quick" else ("count-",), "zip64-endrecords")
     return rep.finish("model_checking",
@@ -606,6 +613,9 @@ def c13(tier):
                     ops.append({"op": "Write", "data": g.payload()})
             ops.append({"op": g.r.choice(["Finish", "Finish", "Finish", "Drop"])})
         scs.append({"sc": "ap%05d-%s" % (i, kind), "ops": ops})
+    ix = gen_writer.interaction_programs(sd * 7919 + 13, "ix", only=lambda row: row["life"] != "fresh")
+    rep.notes["interaction_rows"] = len(ix)
+    scs += ix
     run_writer_programs(rep, wd, scs, "append", referees=False)
     return rep.finish("model_checking",
                       "histories base -> (append k entries)* with 1..3 rounds over bases from this writer, the independent "
@@ -718,7 +728,7 @@ def producer_cases(wd, cfgname, tag):
     return cases
 
 
-PRODUCER_MUTANTS = ("cs_first", "either_both", "always_all", "first_record_only", "central_xlen", "local_sizes", "first_dup")
+PRODUCER_MUTANTS = ("cs_first", "either_both", "always_all", "first_record_only", "central_xlen", "local_sizes", "first_dup", "aes_swallows_next")
 
 
 def mc_producer(rep, wd, tier, mutants=PRODUCER_MUTANTS, one_entry_only=False):
@@ -882,6 +892,18 @@ def c19(tier):
         for k, (flag, s) in enumerate(cases[i:i + per]):
             # names stay distinct through a numeric prefix directory that is pure ASCII
             ents.append({"name": b"%d/" % k + s, "utf8": flag, "method": 0, "data": b"x", "fcomment": s})
+            # Info-ZIP "Unicode Path" / "Unicode Comment" records (0x7075 / 0x6375) may accompany a name; whether their checksum
+            # matches the header name or is stale, the name and comment reported are the flag-directed decoding of the HEADER bytes
+            if (i + k) % 4 == 1:
+                import zlib
+                nm_ = ents[-1]["name"]
+                good = (i + k) % 8 == 1
+                crc_ = (zlib.crc32(nm_) if good else zlib.crc32(b"an older name")) & 0xFFFFFFFF
+                up = b"\x01" + crc_.to_bytes(4, "little") + ("unicode-path-%d-é" % k).encode()
+                uc = b"\x01" + (zlib.crc32(s) & 0xFFFFFFFF).to_bytes(4, "little") + "unicode comment ü".encode()
+                ents[-1]["cextra"] = [(0x7075, up), (0x6375, uc)]
+                if (i + k) % 3:
+                    ents[-1]["lextra"] = [(0x7075, up)]
             # name and comment are decoded independently of each other's content: a pure-ASCII name with this comment,
             # and this name with a pure-ASCII comment
             if (i + k) % (1 if tier == "thorough" else 3) == 0:
@@ -891,6 +913,15 @@ def c19(tier):
         scs.append({"sc": "d%05d" % i, "hex": b.hex(), "expect": gen_reader.expect_of(v), "decode": True, "max_entries": 200})
     rep.notes["decode_cases"] = len(cases)
     run_reader_scenarios(rep, wd, scs, "decode")
+    # the decoded names survive an append round: the rewritten directory must denote the same strings (the stored bytes may be
+    # transcoded to UTF-8 with the flag set, but never CP437 bytes under the UTF-8 flag or the reverse)
+    aps = []
+    pick = scs[:3] + scs[len(scs) // 2:len(scs) // 2 + 2] + scs[-3:] if tier == "quick" else scs
+    for j, d in enumerate(pick):
+        aps.append({"sc": "ap-%s" % d["sc"], "max_entries": 200, "ops": [
+            {"op": "Load", "hex": d["hex"]}, {"op": "NewAppend", "arch": 0},
+            {"op": "StartFile", "name": "appended-é-%d" % j, "method": 8}, {"op": "Write", "data": "new entry"}, {"op": "Finish"}]})
+    run_writer_programs(rep, wd, aps, "append-names", neg_control=False)
     # writer side: any Rust string is stored as the same UTF-8 bytes, flagged iff non-ASCII, and read back equal
     g = gen_writer.Gen(sd * 31 + 19, tier)
     ws = []
@@ -1154,6 +1185,18 @@ def c09(tier):
     for m in (1, 2, 3, 7, 100):
         ops = [{"op": "New"}] + base + [{"op": "New", "short_w_max": m}] + base + [{"op": "Compare", "a": 0, "b": 1}]
         ws.append({"sc": "sw-max-%d" % m, "ops": ops})
+    # append rounds through a short-writing sink - in particular the round whose rewritten directory + end records are SHORTER than
+    # the old ones (a long comment replaced by a short one), where the writer fills the difference with zero bytes first
+    first = [{"op": "New"}, {"op": "StartFile", "name": "old", "method": 8}, {"op": "Write", "data": {"len": 300, "seed": 5, "kind": "text"}},
+             {"op": "SetComment", "c": {"rep": "long comment ", "n": 5000}}, {"op": "Finish"}]
+    for more in ([], [{"op": "StartFile", "name": "new", "method": 0}, {"op": "Write", "data": "appended"}]):
+        rnd_round = more + [{"op": "SetComment", "c": "short"}, {"op": "Finish"}]
+        ops = first + [{"op": "NewAppend", "arch": 0}] + rnd_round
+        cmps = 0
+        for opt in ([{"short_w_max": m} for m in (1, 3, 100, 4095, 4097)] + [{"short_w_at": j} for j in (350, 400, 1000, 4500, 5300)]):
+            ops += [dict({"op": "NewAppend", "arch": 0}, **opt)] + rnd_round + [{"op": "Compare", "a": 1, "b": 2 + cmps}]
+            cmps += 1
+        ws.append({"sc": "sw-append-shrink-%d" % len(more), "ops": ops})
     # the caller splitting its writes differently decodes to the same entries
     for sp in (1, 2, 3, 50, 4096):
         ops = [{"op": "New"}]
@@ -1161,6 +1204,9 @@ def c09(tier):
             ops += [{"op": "StartFile", "name": "m%d" % m, "method": m}, {"op": "Write", "data": {"len": 3000, "seed": m + 1, "kind": "text"}, "split": sp}]
         ops.append({"op": "Finish"})
         ws.append({"sc": "split-%d" % sp, "ops": ops})
+    ix = gen_writer.interaction_programs(sd * 7919 + 9, "ix", only=lambda row: row["sink"] != "plain")
+    rep.notes["interaction_rows"] = len(ix)
+    ws += ix
     run_writer_programs(rep, wd, ws, "shortwrite", neg_control=False)
     return rep.finish("model_checking",
                       "MC_EntryRead: CipherSync/MacAtEnd/EofIntegrity/Accounting/ZeroAndSticky over all schedules (buffers {0,1,2,5}, all "
@@ -1486,6 +1532,17 @@ def c16(tier):
             data = bytes(rnd.randrange(256) for _ in range(ln)) if m == 0 else (b"aes text %d " % ln) * (ln // 10 + 1)
             data = data[:ln]
             ents.append({"name": b"ae%d-s%d-m%d-l%d" % (ver, st, m, ln), "method": m, "data": data, "enc": ("aes", ver, st, pw)})
+            # the AE-x record among the entry's other records (an encryptor is free in their order): in front of / behind an
+            # extended timestamp, an NTFS record, a (forced) ZIP64 record
+            c = len(ents) % 6
+            if c in (1, 2, 3, 4):
+                others = [(0x5455, b"\x01" + (946684800 + ln).to_bytes(4, "little")), (0x000a, bytes(4) + b"\x01\x00\x18\x00" + bytes(range(24)))]
+                ents[-1]["cextra"] = ents[-1]["lextra"] = others[:1] if c in (1, 3) else others
+                ents[-1]["aes_first"] = c in (1, 2)
+            if c in (2, 4, 5):
+                ents[-1]["z64"] = {"usize", "csize"} if c != 4 else {"csize", "off"}
+                ents[-1]["z64_last"] = c in (2, 5)
+                ents[-1]["lz64"] = c == 2
         b, view = refzip.build({"entries": ents})
         pwq = []
         for k, e in enumerate(ents):
@@ -1505,6 +1562,13 @@ def c16(tier):
     scs.append({"sc": "fixture", "hex": fx.hex(), "expect": [],
                 "pwq": [{"i": k, "kind": kd, "pw": (b"helloworld" if kd == "right" else b"wrong").hex() if kd != "none" else ""}
                         for k in range(4) for kd in ("none", "wrong")]})
+    # the AE-x record among the other records of an entry, at model level (Producer.tla: the record before / after unknown records,
+    # the ZIP64 record placed before / after all of them; defect D18 as reader mutant aes_swallows_next) and every realisable
+    # encrypted one-entry archive of that model built by the independent builder and opened with the right password
+    mc_producer(rep, wd, tier, mutants=("aes_swallows_next",), one_entry_only=True)
+    pa = [A for A in producer_cases(wd, "MC_Producer1.cfg", "emit-p1") if any(c["aes"] != "none" for c in A["ents"])]
+    rep.notes["producer_aes_cases"] = len(pa)
+    scs += [gen_reader.from_producer_case("pa%05d" % i, A) for i, A in enumerate(pa)]
     run_reader_scenarios(rep, wd, scs, "aes-open")
     # tampering: every single-bit flip of salt / verifier / ciphertext / MAC of small entries; wrong CRC under AE-1 vs AE-2
     for ver in (1, 2):
@@ -2543,7 +2607,8 @@ def extract_archives(rnd, n, sbx_abs):
                 if ro:
                     mode &= 0o555
             data = b"" if isdir else bytes(rnd.randrange(256) for _ in range(rnd.choice([0, 1, 5, 300])))
-            ents.append({"name": name, "utf8": True, "method": 0 if (isdir or not data) else rnd.choice([0, 8]), "data": data,
+            # (directory entries and empty files may be "compressed" too - Java and Go writers deflate them: size 0, a few stored bytes)
+            ents.append({"name": name, "utf8": True, "method": rnd.choice([0, 0, 8, 12]) if (isdir or not data) else rnd.choice([0, 8]), "data": data,
                          "system": system, "eattr": eattr, "_mode": mode})
         try:
             for e in ents:
